@@ -10,6 +10,15 @@ TEST_CMD = "cd /repo && /venv/bin/python -m pytest -ra -q -p no:cacheprovider --
 
 # id -> (level, technique, text, note, design_ref)
 CHECKS = {
+ "C02": ("model_checking", "TLC case machine spec/NNCatalog.tla over spec/ConvGeom.tla (polynomial forms with mechanically derived VJPs; named real functions with spec-fixed structure) + replay of every case",
+         "every nn case of the geometry / shape / mode grids replayed in both dtypes for every requires-grad subset and basis/negative/generic/ones upstream gradients",
+         "real functions and their partials interpreted with mpmath; 2-D geometry grid reduced in quick tier", "5/C02"),
+ "C06": ("model_checking", "TLC case machine spec/NNCatalog.tla (forward definitions, geometry, acceptance) + replay of every case, functional and module forms, plus layer-construction grid",
+         "forward shape/values and accept/reject for every nn case; 'same'/'valid'/default-stride layer normalisation against ConvGeom.OutLen",
+         "MAY cases may raise; all-padding max-pool windows excluded", "5/C06"),
+ "C16": ("model_checking", "TLC invariants Adjoint / FoldUnfoldCount on spec/ConvGeom.tla for every enumerated geometry + replay on all conv_tools variants",
+         "three im2col, three col2im, extract_windows, place_windows compared with the specification matrices on every case; inner-product adjointness on seeded real data; cover count",
+         "integer image ids; geometry grid in evidence", "5/C16"),
  "C18": ("model_checking", "TLC case machine + loader state machine spec/Data.tla; every case / history replayed on split_dataset, DataLoader, one_hot_encode",
          "all (n, fractions, shuffle) splits up to MaxN with floor-rule sizes, partition, pairing, order; all DataLoader histories (iter/next/len/getitem) for every (n, batch size) with and without transform; all label vectors",
          "dyadic fractions; set membership of a split left open", "5/C18"),
